@@ -16,6 +16,7 @@ package main
 
 import (
 	"fmt"
+	"golang.org/x/tools/go/ssa"
 	"math/big"
 	"strings"
 	"sync"
@@ -76,6 +77,9 @@ type Stats struct {
 	Samples                                                                 []string
 	Violations                                                              []Violation
 	ReachWitness                                                            int
+	Notes                                                                   map[string]int
+	NoteErr                                                                 map[string]int
+	NoteSolver                                                              map[string]float64
 }
 
 type Explorer struct {
@@ -218,6 +222,9 @@ type Path struct {
 	reached    bool
 	ghost      []string
 	ufDeclared map[string]bool
+	opaque     map[string]*Term
+	ifCount    map[*ssa.If]int
+	ifConc     map[*ssa.If]int
 	facts      map[uint64]factVal
 }
 
@@ -519,9 +526,7 @@ func (p *Path) flush() {
 	}
 	txt := strings.Join(p.pending, "")
 	p.w.solver.send(txt)
-	if p.w.cross != nil {
-		p.w.ctx.top().text.WriteString(txt)
-	}
+	p.w.ctx.top().text.WriteString(txt)
 	p.pending = p.pending[:0]
 }
 
@@ -537,7 +542,9 @@ func (p *Path) check(c *Term, wantModel bool) (Verdict, Model) {
 	p.flush()
 	s := p.w.solver
 	s.send("(push 1)\n(assert " + cs + ")\n")
+	s.tempPush = true
 	v := s.checkSat()
+	s.tempPush = false
 	var m Model
 	if v == Sat && wantModel {
 		m = p.fetchModel()
@@ -746,22 +753,11 @@ func (p *Path) solverValue(t *Term) *big.Int {
 	ts := p.termStr(t)
 	p.flush()
 	s := p.w.solver
-	s.send("(check-sat)\n")
-	for {
-		line, err := s.out.ReadString('\n')
-		if err != nil {
-			panic(engineError{"solver died"})
-		}
-		line = strings.TrimSpace(line)
-		if line == "sat" {
-			break
-		}
-		if line == "unsat" {
-			panic(pathEnd{"infeasible"})
-		}
-		if line == "unknown" {
-			panic(engineError{"unknown while concretizing"})
-		}
+	switch s.checkSat() {
+	case Unsat:
+		panic(pathEnd{"infeasible"})
+	case Unknown:
+		panic(engineError{"unknown while concretizing"})
 	}
 	s.send("(get-value (" + ts + "))\n")
 	txt, err := s.readSexp()
